@@ -68,7 +68,7 @@ def nll_formula(ctx, case):
         vc = float(f2({}))
         ctx.check(abs(vc - ref) <= tol(ref), "batch_independence_call", "model=%s: fcn() with batch %d gives %.12g" % (nc.model, b, vc))
     # common rescaling of all amplitudes
-    if nc.model not in ("extended", "cfit_extended") and not nc.gauss_on_totals():
+    if nc.model not in ("extended", "cfit_extended", "constr_frac") and not nc.gauss_on_totals():
         lam = case["lam"]
         before = dict(nc.amp.get_params())
         nc.rescale_totals(lam)
@@ -129,7 +129,7 @@ def case_st(models=None):
 
 def run_models(ctx):
     # one model family per shard group so that every model is exercised in every run
-    groups = [["default", "extended"], ["cfit", "cfit_cached"], ["cfit_extended", "simple", "simple_clip"], ["cached_int", "cached_amp"]]
+    groups = [["default", "extended", "constr_frac"], ["cfit", "cfit_cached"], ["cfit_extended", "simple", "simple_clip"], ["cached_int", "cached_amp"]]
     g = groups[ctx.shard % len(groups)]
     ctx.run_cases(nll_formula, case_st(g), ctx.n(48, 1500) * 1, name="nll_formula_%d" % (ctx.shard % len(groups)))
 
